@@ -1330,4 +1330,41 @@ theorem omdF_halts (fl : Rat → Rat) (fuel : Nat) (ps etas : List Rat) (l0 : Ra
     simp only [h, Option.some.injEq, Prod.mk.injEq] at hres
     rw [← hres.2, this]
 
+/-- Welford's update over exact arithmetic keeps `M2 ≥ 0` (each increment is `δ²(1 - 1/n)`), so the
+variance it reports is never negative — what `BanditUCBLearner._Avg_R_UCB` needs under its `sqrt` -/
+theorem Welford.update_inv (w : Welford) (v : Rat) (hc : 0 ≤ w.count) (hm : 0 ≤ w.m2)
+    (hv : ∀ x, w.var = some x → 0 ≤ x) :
+    0 ≤ (w.update (fun x => x) v).count ∧ 0 ≤ (w.update (fun x => x) v).m2 ∧
+      ∀ x, (w.update (fun x => x) v).var = some x → 0 ≤ x := by
+  have hc1 : 0 < w.count + 1 := by linarith
+  have hinc : 0 ≤ (v - w.mean) * (v - (w.mean + (v - w.mean) / (w.count + 1))) := by
+    have : v - (w.mean + (v - w.mean) / (w.count + 1)) = (v - w.mean) * (w.count / (w.count + 1)) := by
+      field_simp; ring
+    rw [this]
+    have h2 : 0 ≤ w.count / (w.count + 1) := div_nonneg hc hc1.le
+    nlinarith [mul_self_nonneg (v - w.mean)]
+  refine ⟨by simp only [Welford.update]; linarith, by simp only [Welford.update]; linarith, ?_⟩
+  intro x hx
+  simp only [Welford.update] at hx
+  split at hx
+  · simp only [Option.some.injEq] at hx
+    rw [← hx]
+    apply div_nonneg
+    · linarith
+    · linarith
+  · exact hv x hx
+
+theorem Welford.run_inv (vs : List Rat) : ∀ w : Welford, 0 ≤ w.count → 0 ≤ w.m2 → (∀ x, w.var = some x → 0 ≤ x) →
+    0 ≤ (vs.foldl (Welford.update (fun x => x)) w).m2 ∧ ∀ x, (vs.foldl (Welford.update (fun x => x)) w).var = some x → 0 ≤ x := by
+  induction vs with
+  | nil => intro w _ hm hv; exact ⟨hm, hv⟩
+  | cons v vs ih =>
+    intro w hc hm hv
+    obtain ⟨h1, h2, h3⟩ := Welford.update_inv w v hc hm hv
+    exact ih _ h1 h2 h3
+
+theorem Welford.var_nonneg (vs : List Rat) :
+    0 ≤ (Welford.run (fun x => x) vs).m2 ∧ ∀ x, (Welford.run (fun x => x) vs).var = some x → 0 ≤ x :=
+  Welford.run_inv vs {} (le_refl _) (le_refl _) (by intro x h; simp at h)
+
 end Coba.C16
